@@ -211,7 +211,8 @@ func c15ObfCase(rec *kit.Rec, ob c15Obf, kp c15KeyPair, tag []byte, wrong [][32]
 		rec.Violation("obfs:"+ob.name+":reveal-modifies-its-input", "TryReveal changed the caller's buffer (reveal with the matching key)",
 			map[string]interface{}{"case": desc, "key": "right", "first_changed_byte": c15FirstDiff(encCopy, enc), "before": kit.HexN(enc, 56), "after": kit.HexN(encCopy, 56)})
 	}
-	if !c15RevealSchedules(rec, ob, kp, desc, orig, enc, wrong) {
+	// quick tier: the same-buffer schedules run for every tag length up to 70 and every third length beyond
+	if (kit.Thorough() || len(tag) <= 70 || len(tag)%3 == 0) && !c15RevealSchedules(rec, ob, kp, desc, orig, enc, wrong) {
 		return
 	}
 	if len(enc) >= 32 && (ob.name == "gcm" || ob.name == "ctr") {
